@@ -404,6 +404,9 @@ pub(crate) fn parse_unknown_ifdata(
                 if let Ok(num) = parser.get_integer::<i32>(context) {
                     let line_offset = parser.get_line_offset();
                     items.push(GenericIfData::Long(line_offset, num));
+                } else if let Some(item) = parse_unknown_wide_integer(parser, context) {
+                    // the value does not fit into 32 bits, but it is still an integer
+                    items.push(item);
                 } else {
                     // try again, looks like the number is a float instead
                     parser.undo_get_token();
@@ -438,6 +441,23 @@ pub(crate) fn parse_unknown_ifdata(
         0,
         items,
     ))
+}
+
+// parse_unknown_wide_integer()
+// integers that do not fit into an i32 are stored as 64-bit values, so that they are not rounded by a conversion to float
+fn parse_unknown_wide_integer(
+    parser: &mut ParserState,
+    context: &ParseContext,
+) -> Option<GenericIfData> {
+    parser.undo_get_token();
+    if let Ok(num) = parser.get_integer::<i64>(context) {
+        return Some(GenericIfData::Int64(parser.get_line_offset(), num));
+    }
+    parser.undo_get_token();
+    if let Ok(num) = parser.get_integer::<u64>(context) {
+        return Some(GenericIfData::UInt64(parser.get_line_offset(), num));
+    }
+    None
 }
 
 // parse_unknown_taggedstruct()
